@@ -160,7 +160,10 @@ def run(tier, seed):
         return dict(ndim=1, dt=dt, t0=t0, every=every, max_steps=max_steps, max_time=max_time, x0=[x0], v=[v], mass=[2.0], bounds=bounds, force=[0.0])
     FIXED = [fx(0.0, 1.0, 20.0, [-1.0, 1.0]), fx(0.5, 0.5, 1.0, [-1.0, 1.0]), fx(0.75, 0.5, 0.5, [-1.0, 1.0], every=2), fx(-4.0, 1.0, 1.0, [-1.0, 1.0]),
              fx(0.0, 0.25, 1.0, [-1.0, 1.0], max_steps=0), fx(0.0, 0.25, 1.0, None, max_steps=4, every=2), fx(0.0, 0.25, 1.0, None, max_steps=5, every=2),
-             fx(0.0, 0.5, 1.0, [-8.0, 8.0], max_steps=-1, max_time=37.5 + 6.0, t0=37.5, every=3), fx(1.0, -0.5, 1.0, [[-3.0], [1.0]])]
+             fx(0.0, 0.5, 1.0, [-8.0, 8.0], max_steps=-1, max_time=37.5 + 6.0, t0=37.5, every=3), fx(1.0, -0.5, 1.0, [[-3.0], [1.0]]),
+             # a box open in one dimension (infinite bounds) and a half-open one: only the finite sides can end the run
+             dict(ndim=2, dt=1.0, t0=0.0, every=1, max_steps=40, max_time=None, x0=[0.0, 0.0], v=[0.3, 0.5], mass=[2.0, 3.0], bounds=[[-float("inf"), -1.0], [float("inf"), 1.0]], force=[0.0, 0.0]),
+             fx(0.0, 0.5, 1.0, [[-float("inf")], [2.0]]), fx(0.0, -0.5, 1.0, [[-float("inf")], [2.0]], max_steps=9)]
     for it in range(ncase):
         cls = CLASSES[it % len(CLASSES)]
         cfg = dict(FIXED[it // len(CLASSES)]) if it < len(FIXED) * len(CLASSES) else gen_cfg(rng)
@@ -253,6 +256,25 @@ def run(tier, seed):
             if not tm or abs(tm[0] - t0_) > 1e-9 or abs(tm[-1] - (t0_ + dt_ * nst_)) > 1e-6:
                 bad.append(dict(failed="a trajectory started through BatchedTraj with t0=%r, dt=%r, max_time=%r logs its initial condition at t0 and ends when the time limit is reached (logged times %r ... %r, %d snapshots)" % (t0_, dt_, t0_ + dt_ * nst_, tm[:1], tm[-1:], len(tm)),
                                 case=dict(cls=C_.__name__, t0=t0_, dt=dt_, steps=nst_))); break
+    # ---- the same through the command line: time step (with and without -y: dt/k for each momentum), stride, step limit
+    import io as _io, pickle as _pk, tempfile as _tf, mudslide.__main__ as _mm
+    for y_ in (False, True):
+        ks_ = [8.0, 20.0, 32.0] if y_ else [10.0, 20.0]; dtc_ = 40.0 if y_ else 5.0; ev_ = 2; nt_ = 12
+        with _tf.TemporaryDirectory() as td_:
+            pf_ = os.path.join(td_, "o.pickle")
+            _mm.main(["-m", "simple", "-n", str(len(ks_)), "-k", str(ks_[0]), str(ks_[-1]), "-l", "linear", "-s", "1", "-z", "3", "-x", "-3", "-b", "50", "-t", str(dtc_), "-T", str(nt_), "-e", str(ev_), "-o", "pickle", "-O", pf_]
+                     + (["-y"] if y_ else []), file=_io.StringIO())
+            with open(pf_, "rb") as fh_:
+                rs_ = _pk.load(fh_)
+        res.count("cli-option-plumbing"); res.case(("cliopts", y_), True)
+        for kk_, tm_ in rs_:
+            want_dt = dtc_ / kk_ if y_ else dtc_
+            for t in tm_.traces:
+                tms = [float(sn["time"]) for sn in t]
+                want_t = [want_dt * j for j in range(0, nt_ + 1, ev_)]
+                if len(tms) != len(want_t) or max(abs(a_ - b_) for a_, b_ in zip(tms, want_t)) > 1e-9 * want_t[-1]:
+                    bad.append(dict(failed="a run started from the command line with -t %g%s -e %d -T %d at momentum %g logs the initial condition, every %dth step and the final state, %d steps of dt=%g (logged times %r)" % (dtc_, " -y" if y_ else "", ev_, nt_, kk_, ev_, nt_, want_dt, tms[:4] + tms[-1:]),
+                                    case=dict(k=kk_, scale_dt=y_))); break
     # ---- snapshot self-consistency on real models: both representations (non-diagonal Hamiltonian), coherent and mixed density matrices
     for it in range(8 if tier == "quick" else 80):
         mname, x0, p0 = [("simple", [-1.0], [12.0]), ("dual", [-2.0], [25.0]), ("super", [-2.0], [9.0]), ("vibronic", [0.1, -0.2, 0.15, 0.05, 0.4], [0.5, -0.3, 0.2, 0.1, 2.0])][it % 4]
